@@ -96,6 +96,7 @@ pub fn profile_for(prop: &str, tier: &str) -> Profile {
             p.heal_pct = 8;
             p.shutdown_pct = 60;
             p.max_vamms = 3;
+            p.foreign_fund_pct = 50;
         }
         "C15" => {
             p.fluct_pct = 100;
@@ -119,6 +120,7 @@ pub fn profile_for(prop: &str, tier: &str) -> Profile {
         }
         "C18" => {
             p.w_ops = [36, 10, 2, 2, 6, 3, 3, 30, 2, 1, 0];
+            p.busy_pct = 6;
         }
         "C20" => {
             p.w_ops = [30, 8, 3, 3, 6, 2, 3, 10, 30, 1, 0];
@@ -139,6 +141,7 @@ pub fn profile_for(prop: &str, tier: &str) -> Profile {
             p.pyramid_pct = 90;
             p.fluct_pct = 40;
             p.macro_pct = 25;
+            p.busy_pct = 6;
             if prop == "C07" {
                 p.exact_edge_liq_pct = 12;
                 p.feed_real_pct = 30;
